@@ -98,6 +98,15 @@ CLAIMED = {
         "Trusted: as C13; dict semantics of possible_values modelled as an insertion-ordered association list.",
         "DESIGN.md section 5 C17",
     ),
+    "C07": (
+        "Coq proof: invariant of the token-level expression builder by induction over expressions, linked to the parser theorems of C01 + correspondence (string vs render, end-to-end part evaluation) and truth-table oracle",
+        "Props/C07.v: for every in-domain valid expression and assignment the reported expression is absent iff the direct reading is empty, otherwise it is a builder-made token expression denoting a tree with the "
+        "same Boolean value under every truth assignment and the same keys as the reading (C07_meaning); only FC keys of the source occur; the built forest has a derivation in the documented precedence grammar "
+        "(C07_wellformed) and every tree the parser's resolution admits for it has the value of the reading (C07_value_via_parser).",
+        "Trusted: as C04 and C01. Partial: that the implementation's string builder equals `render` of the token-level builder, and that lexing the rendered string yields the built forest, are established by "
+        "correspondence (character-by-character string comparison, and format_constraint_evaluation of the string vs the model), not by theorems. Interpretation S1 (DESIGN.md section 7).",
+        "DESIGN.md section 5 C07",
+    ),
 }
 
 PENDING_REASON = "not yet built in this round: the Coq model/theorems for this property are under construction (see DESIGN.md section 11); no check is claimed until it exists"
